@@ -84,6 +84,11 @@ THEOREMS = {
         "Shroud.PyList.toPyList_roundtrip",
         "Shroud.PyList.char_typeError_iff",
         "Shroud.PyList.charptr_bad_item",
+        "Shroud.PyList.fillChar_within_member",
+        "Shroud.PyList.fillChar_string",
+        "Shroud.PyList.readCells_bounded",
+        "Shroud.PyList.readCells_chars",
+        "Shroud.PyList.fillChar_typeError_iff",
     ],
     "ShroudVerif.Props.C03Tables": [
         "Shroud.PyTables.stmts_one_address_per_unit",
@@ -1542,6 +1547,7 @@ def run(ctx):
         nh = c03_helpers.run(ctx, drv, ACCEPTS, thorough, dis_help)
         ctx.note("list_helper_cases (c++ and c: get_from_object_<T>_list, fill_from_PyObject_<T>_list, to_PyList, charptr)", nh)
         ctx.note("disagreements_list_helpers", len(dis_help))
+        ctx.note("char_member_assignments (struct as class, constructor and setter, c++ and c)", c03_helpers.member_oracle(ctx, thorough))
         if dis_help:
             ctx.tie_broken("pylist-helpers", dis_help[:6])
     for li, lib in enumerate(libs):
